@@ -70,6 +70,22 @@ class TagLib(mwbase.LibraryMiddleware):
         return library
 
 
+class Boom(mwbase.BlockMiddleware):
+    """Fails on its n-th entry: the blocks before it have already been transformed (in place, if allowed)."""
+
+    def __init__(self, n, inplace):
+        super().__init__(allow_inplace_modification=inplace, allow_parallel_execution=True)
+        self.n = n
+        self.seen = 0
+
+    def transform_entry(self, entry, library):
+        self.seen += 1
+        if self.seen == self.n:
+            raise RuntimeError("middleware failed on entry %d" % self.n)
+        _tag(entry, "boom")
+        return entry
+
+
 class DropComments(mwbase.BlockMiddleware):
     def __init__(self, tag, inplace):
         super().__init__(allow_inplace_modification=inplace, allow_parallel_execution=True)
@@ -153,6 +169,8 @@ def build_mw(d):
         return TagLib(d["t"], d["ip"])
     if k == "drop":
         return DropComments(d.get("t", ""), d["ip"])
+    if k == "boom":
+        return Boom(d["n"], d["ip"])
     if k == "shipped":
         return SHIPPED[d["i"] % len(SHIPPED)](d["ip"])
     raise ValueError(k)
@@ -181,6 +199,8 @@ def _mwdesc(rng, tags):
         return {"k": "tagl", "t": tags.pop(0), "ip": ip}
     if r < 0.72:
         return {"k": "drop", "ip": ip}
+    if r < 0.76:
+        return {"k": "boom", "n": rng.choice([1, 2, 2, 3]), "ip": ip}
     return {"k": "shipped", "i": rng.randrange(len(SHIPPED)), "ip": ip}
 
 
@@ -576,6 +596,12 @@ def execute(run, props):
                               f"{label} differs from the requested stack followed by the writer: {got[1][:200]!r} vs {want[1][:200]!r}")
                             return res
                         res.nontrivial = True
+                    if not both and fingerprint(lib) != fingerprint(twin):
+                        # whatever the stack did to the caller's library (in-place middleware, or a stack that
+                        # raised half-way) is what the explicit composition does to an identical library
+                        V("composition", "write_string/library-state/" + got[0], step,
+                          f"{label} ({got[0]}) left the caller's library in another state than applying the same stack by hand does")
+                        return res
                     res.states.add(("write_string", pattern(a), _classes(a), got[0]))
                     res.event(step, label, got[0], digest(got[1], n=8) if got[0] == "ok" else type(got[1]).__name__)
                     continue
